@@ -289,6 +289,15 @@ Section Upgrade.
 
 End Upgrade.
 
+(** Non-vacuity of [weak_new_never_upgrades]: weak slot 0 holds a [Weak::new()] handle. *)
+Definition exP3 : prog := Prog [] [] [CWNew (WS 0)].
+Definition exM3 : machine := run_main exK exP3 20 (init exK).
+Example weak_new_ex :
+  k_weak exK = true /\ wresolve None (WS 0) exM3 = (exM3, Some (RWSlot 0)) /\
+  resolve None (LS 1) exM3 = (exM3, Some (RSlot 1)) /\ read_wloc (RWSlot 0) exM3 = Some WNull /\
+  cmd_upgrade exK (run exK exP3 5) None (WS 0) (LS 1) exM3 = ok exM3 RNone.
+Proof. repeat split; vm_compute; reflexivity. Qed.
+
 (** *** The converse fails: finding F4.  An upgrade returns [None] although the target is alive.
     [f4_prog] is the first program of /verif/corpus/f4_upgrade_none_in_finalize_pass.prog:
     objects 0 (class 1, finalizer = script 0) and 1 (class 2) form a cycle; object 2 (class 3, Drop
@@ -371,3 +380,12 @@ Proof.
   split; [exists (Flags true true false false); vm_compute; tauto|].
   exists (Flags true false true false); vm_compute; tauto.
 Qed.
+
+Print Assumptions reach_any_live.
+Print Assumptions reach_live.
+Print Assumptions untraced_is_external.
+Print Assumptions step_drop_cc_last_owner.
+Print Assumptions last_owner_freed.
+Print Assumptions weak_new_never_upgrades.
+Print Assumptions F4_upgrade_none_target_alive.
+Print Assumptions F4_corpus.
